@@ -1,4 +1,366 @@
-(* Property C16 (placeholder while the proofs are being built). *)
-From Coq Require Import ZArith Bool.
-From FpyV Require Import Num.RealFloat Num.Float Num.Formats.
+(* Property C16 — encodings and ordinals are order-preserving bijections.
+   Only statements, each closed by `exact`, each followed by Print Assumptions.
+
+   Model: coq/Num/Formats.v (the format classes of fpy2/number/context).
+   Specification: coq/Num/Layout.v (layouts with div / mod / powers, value
+   equivalence `fl_equiv`, bounded domains), Flocq's IEEE754.Bits for IEEE,
+   the reals (R2R) for order and value.
+
+   `fixes`: Formats.v models /repo as coded (`as_coded`) and /repo with the four
+   proposed patches fixes/C16-*.diff (`all_fixed`).  Full-strength statements
+   are proved for `all_fixed`; for `as_coded` the statement is proved outside
+   the defective corner (`_partial`) and refuted by a witness (`_refuted`).
+
+   Bounded theorems (suffix _le8 / _le6) are genuine proofs of the stated
+   bounded statement: dom8 f = valid format, 1 <= nbits <= 8, |eoffset| <= 3;
+   dom6 likewise with nbits <= 6.  All others are unbounded in every parameter. *)
+From Coq Require Import ZArith Bool Reals.
+From Flocq Require Import Core.Zaux Core.Raux Core.Defs IEEE754.Binary IEEE754.Bits.
+From FpyV Require Import Num.RealFloat Num.RealFloatProofs Num.Float Num.FloatProofs Num.Formats Num.Layout
+  Num.FormatsProofs Num.FormatsIEEEProofs Num.FormatsFixedProofs
+  Num.FormatsBoundedLibProofs Num.FormatsBoundedRTProofs Num.FormatsBoundedOrdProofs Num.FormatsBoundedCandProofs
+  Num.FormatsOrdMonoProofs Num.FormatsExamplesProofs.
 Open Scope Z_scope.
+
+(* ================================================================ decode follows the published layout (unbounded) *)
+
+(* every valid extended format (any nbits, es, eoffset; each NaN kind; with or
+   without infinities): decode is the declarative layout *)
+Theorem C16_efloat_decode_layout : forall f b,
+  ef_valid f = true -> is_pattern f b -> ef_decode f b = Ok (layout_value f b).
+Proof. exact ef_decode_layout. Qed.
+Print Assumptions C16_efloat_decode_layout.
+
+(* IEEE formats, any field widths: the layout is Flocq's binary_float_of_bits *)
+Theorem C16_ieee_layout_flocq : forall mw ew b, 0 < mw -> 0 < ew -> 0 <= b < 2 ^ (mw + ew + 1) ->
+  ff_of_fl (layout_value (ieee_fmt mw ew) b) = ff_erase_payload (binary_float_of_bits_aux mw ew b).
+Proof. exact ieee_layout_flocq. Qed.
+Print Assumptions C16_ieee_layout_flocq.
+
+Theorem C16_ieee_decode_flocq : forall mw ew b, 0 < mw -> 0 < ew -> 0 <= b < 2 ^ (mw + ew + 1) ->
+  ef_valid (ieee_fmt mw ew) = true ->
+  exists x, ef_decode (ieee_fmt mw ew) b = Ok x /\
+    ff_of_fl x = ff_erase_payload (binary_float_of_bits_aux mw ew b).
+Proof. exact ieee_decode_flocq. Qed.
+Print Assumptions C16_ieee_decode_flocq.
+
+Theorem C16_ieee_layout_value_flocq : forall mw ew b r, 0 < mw -> 0 < ew -> 0 <= b < 2 ^ (mw + ew + 1) ->
+  layout_value (ieee_fmt mw ew) b = FFin r ->
+  rf_wf r /\ R2R r = FF2R radix2 (binary_float_of_bits_aux mw ew b) /\
+  (rc r = 0 -> binary_float_of_bits_aux mw ew b = F754_zero (rs r)).
+Proof. exact ieee_layout_value_flocq. Qed.
+Print Assumptions C16_ieee_layout_value_flocq.
+
+(* two's complement: the pattern read as a signed integer times 2^scale *)
+Theorem C16_fixed_decode_layout : forall f, fix_ctor_ok f = true -> forall b, 0 <= b < 2 ^ x_nbits f ->
+  exists r, fix_decode f b = Ok (FFin r) /\ rf_wf r /\ rexp r = x_scale f /\
+    rf_m r = (if x_signed f then twos_value (x_nbits f) b else b) /\ (rc r = 0 -> rs r = false).
+Proof. exact fix_decode_layout. Qed.
+Print Assumptions C16_fixed_decode_layout.
+
+Theorem C16_sm_decode_layout : forall f, sm_ctor_ok f = true -> forall b, 0 <= b < 2 ^ m_nbits f ->
+  exists r, sm_decode f b = Ok (FFin r) /\ rf_wf r /\ rexp r = m_scale f /\
+    rs r = (2 ^ (m_nbits f - 1) <=? b) /\ rc r = b mod 2 ^ (m_nbits f - 1) /\
+    rf_m r = sm_value (m_nbits f) b.
+Proof. exact sm_decode_layout. Qed.
+Print Assumptions C16_sm_decode_layout.
+
+Theorem C16_exp_decode_layout : forall f, exp_ctor_ok f = true -> forall b, 0 <= b < 2 ^ p_nbits f ->
+  exp_decode f b =
+  Ok (if b =? 2 ^ p_nbits f - 1 then FNaN false
+      else FFin (RF false (b - (2 ^ (p_nbits f - 1) - 1 - p_eoffset f)) 1)).
+Proof. exact exp_decode_layout. Qed.
+Print Assumptions C16_exp_decode_layout.
+
+(* ================================================================ round trips (unbounded): fixed-point and exponential *)
+Theorem C16_fixed_decode_encode : forall f, fix_ctor_ok f = true -> forall b, 0 <= b < 2 ^ x_nbits f ->
+  exists x, fix_decode f b = Ok x /\ mpbf_repr (fix_mpbf f) x = true /\ fix_encode f x = Ok b.
+Proof. exact fix_decode_encode. Qed.
+Print Assumptions C16_fixed_decode_encode.
+
+Theorem C16_fixed_encode_decode : forall f, fix_ctor_ok f = true -> forall r,
+  rf_wf r -> mpbf_repr (fix_mpbf f) (FFin r) = true ->
+  exists b y, fix_encode f (FFin r) = Ok b /\ 0 <= b < 2 ^ x_nbits f /\
+    fix_decode f b = Ok (FFin y) /\ rf_wf y /\ R2R y = R2R r /\ (rc r = 0 -> rs r = false /\ rs y = false).
+Proof. exact fix_encode_decode. Qed.
+Print Assumptions C16_fixed_encode_decode.
+
+Theorem C16_sm_decode_encode : forall f, sm_ctor_ok f = true -> forall b, 0 <= b < 2 ^ m_nbits f ->
+  exists x, sm_decode f b = Ok x /\ mpbf_repr (sm_mpbf f) x = true /\ sm_encode f x = Ok b.
+Proof. exact sm_decode_encode. Qed.
+Print Assumptions C16_sm_decode_encode.
+
+Theorem C16_sm_encode_decode : forall f, sm_ctor_ok f = true -> forall r,
+  rf_wf r -> mpbf_repr (sm_mpbf f) (FFin r) = true ->
+  exists b y, sm_encode f (FFin r) = Ok b /\ 0 <= b < 2 ^ m_nbits f /\
+    sm_decode f b = Ok (FFin y) /\ rf_wf y /\ R2R y = R2R r /\ rs y = rs r.
+Proof. exact sm_encode_decode. Qed.
+Print Assumptions C16_sm_encode_decode.
+
+Theorem C16_exp_decode_encode : forall f, exp_ctor_ok f = true -> forall b, 0 <= b < 2 ^ p_nbits f ->
+  exists x, exp_decode f b = Ok x /\ exp_repr f x = true /\ exp_encode f x = Ok b.
+Proof. exact exp_decode_encode. Qed.
+Print Assumptions C16_exp_decode_encode.
+
+Theorem C16_exp_encode_decode : forall f, exp_ctor_ok f = true -> forall x,
+  fl_wf x -> exp_repr f x = true ->
+  exists b y, exp_encode f x = Ok b /\ 0 <= b < 2 ^ p_nbits f /\ exp_decode f b = Ok y /\
+    match x, y with
+    | FFin r, FFin r' => R2R r' = R2R r
+    | FNaN _, FNaN _ => True
+    | _, _ => False
+    end.
+Proof. exact exp_encode_decode. Qed.
+Print Assumptions C16_exp_encode_decode.
+
+(* ================================================================ fixed-point ordinals (unbounded) *)
+(* the ordinal is the value in units of 2^expmin: strictly increasing, onto Z,
+   inverse up to the choice of encoding *)
+Theorem C16_mpf_ord_value : forall f r, rf_wf r -> mpf_repr f (FFin r) = true ->
+  R2R r = (IZR (mpf_to_ord_rf f r) * bpow radix2 (f_expmin f))%R.
+Proof. exact mpf_ord_value. Qed.
+Print Assumptions C16_mpf_ord_value.
+
+Theorem C16_mpf_ord_compare : forall f x y, rf_wf x -> rf_wf y ->
+  mpf_repr f (FFin x) = true -> mpf_repr f (FFin y) = true ->
+  rf_compare x y = (mpf_to_ord_rf f x ?= mpf_to_ord_rf f y).
+Proof. exact mpf_ord_compare. Qed.
+Print Assumptions C16_mpf_ord_compare.
+
+Theorem C16_mpf_to_from : forall f o,
+  let y := mpf_from_ord_rf f o in
+  rf_wf y /\ mpf_repr f (FFin y) = true /\ mpf_to_ord_rf f y = o.
+Proof. exact mpf_to_from. Qed.
+Print Assumptions C16_mpf_to_from.
+
+Theorem C16_mpf_from_to : forall f r, rf_wf r -> mpf_repr f (FFin r) = true ->
+  R2R (mpf_from_ord_rf f (mpf_to_ord_rf f r)) = R2R r.
+Proof. exact mpf_from_to. Qed.
+Print Assumptions C16_mpf_from_to.
+
+(* bounded fixed point: representable = ordinal in the contiguous range *)
+Theorem C16_mpbf_repr_iff_ord_range : forall g r,
+  rf_wf (g_pos g) -> rf_wf (g_neg g) -> rf_wf r ->
+  mpf_repr (g_mpf g) (FFin (g_pos g)) = true -> mpf_repr (g_mpf g) (FFin (g_neg g)) = true ->
+  rs (g_pos g) = false -> (rc (g_neg g) <> 0 -> rs (g_neg g) = true) ->
+  g_neg_ord g <= 0 <= g_pos_ord g /\
+  (mpbf_repr g (FFin r) = true <->
+   mpf_repr (g_mpf g) (FFin r) = true /\ g_neg_ord g <= mpf_to_ord_rf (g_mpf g) r <= g_pos_ord g).
+Proof. exact mpbf_repr_iff_ord_range. Qed.
+Print Assumptions C16_mpbf_repr_iff_ord_range.
+
+(* every ordinal format: next_up / next_down of a finite representable value
+   are from_ordinal (ordinal +- 1) *)
+Theorem C16_next_is_ordinal_step : forall F r allow o,
+  oo_repr F (FFin r) = true -> oo_to_ord F (FFin r) false = Ok o ->
+  ord_next_up F (FFin r) allow = oo_from_ord F (o + 1) allow /\
+  ord_next_down F (FFin r) allow = oo_from_ord F (o + -1) allow.
+Proof. exact ord_next_spec. Qed.
+Print Assumptions C16_next_is_ordinal_step.
+
+(* normalisation of the fixed-point formats *)
+Theorem C16_mpf_normalize_refuted :
+  exists f r, rf_wf r /\ mpf_repr f (FFin r) = true /\ rf_eqb (mpf_normalize_rf as_coded f r) r = false.
+Proof. exact mpf_normalize_refuted. Qed.
+Print Assumptions C16_mpf_normalize_refuted.
+
+Theorem C16_mpf_normalize_fixed : forall f r, rf_wf r -> mpf_repr f (FFin r) = true ->
+  let y := mpf_normalize_rf all_fixed f r in
+  R2R y = R2R r /\ rs y = rs r /\ rexp y = f_expmin f /\ rf_wf y.
+Proof. exact mpf_normalize_fixed_spec. Qed.
+Print Assumptions C16_mpf_normalize_fixed.
+
+(* ================================================================ extended floats, bounded: patterns (nbits <= 8) *)
+Theorem C16_efloat_decode_representable_le8_fixed : forall f b x,
+  dom8 f -> is_pattern f b -> ef_decode f b = Ok x -> ef_repr all_fixed f x = true.
+Proof. exact efloat_decode_representable_le8_fixed. Qed.
+Print Assumptions C16_efloat_decode_representable_le8_fixed.
+
+Theorem C16_efloat_decode_representable_le8_partial : forall f b x,
+  dom8 f -> is_pattern f b -> ef_decode f b = Ok x ->
+  ef_has_nonzero f = true \/ fl_is_nar x = false ->
+  ef_repr as_coded f x = true.
+Proof. exact efloat_decode_representable_le8_partial. Qed.
+Print Assumptions C16_efloat_decode_representable_le8_partial.
+
+Theorem C16_efloat_decode_representable_refuted :
+  exists f b x, dom8 f /\ is_pattern f b /\ ef_decode f b = Ok x /\ ef_repr as_coded f x = false.
+Proof. exact efloat_decode_representable_refuted. Qed.
+Print Assumptions C16_efloat_decode_representable_refuted.
+
+Theorem C16_efloat_decode_encode_le8_fixed : forall f b x,
+  dom8 f -> is_pattern f b -> ef_decode f b = Ok x ->
+  (fl_isnan x = false -> ef_encode all_fixed f x = Ok b) /\
+  (fl_isnan x = true -> exists b' y, ef_encode all_fixed f x = Ok b' /\ ef_decode f b' = Ok y /\ fl_isnan y = true).
+Proof. exact efloat_decode_encode_le8_fixed. Qed.
+Print Assumptions C16_efloat_decode_encode_le8_fixed.
+
+Theorem C16_efloat_decode_encode_le8_partial : forall f b x,
+  dom8 f -> is_pattern f b -> ef_decode f b = Ok x ->
+  ef_has_nonzero f = true \/ fl_is_nar x = false ->
+  ~ (e_kind f = NK_MAXVAL /\ e_nbits f - e_es f = 1 /\ fl_isinf x = true) ->
+  (fl_isnan x = false -> ef_encode as_coded f x = Ok b) /\
+  (fl_isnan x = true -> exists b' y, ef_encode as_coded f x = Ok b' /\ ef_decode f b' = Ok y /\ fl_isnan y = true).
+Proof. exact efloat_decode_encode_le8_partial. Qed.
+Print Assumptions C16_efloat_decode_encode_le8_partial.
+
+Theorem C16_efloat_decode_encode_refuted :
+  exists f b x b', dom8 f /\ is_pattern f b /\ ef_decode f b = Ok x /\ fl_isnan x = false /\
+    ef_repr as_coded f x = true /\ ef_encode as_coded f x = Ok b' /\ b' <> b.
+Proof. exact efloat_decode_encode_refuted. Qed.
+Print Assumptions C16_efloat_decode_encode_refuted.
+
+(* ordinals: every decoded finite value has an ordinal in the range, mapping
+   back to the same number (the two zeros share ordinal 0) *)
+Theorem C16_efloat_ordinal_of_decoded_le8 : forall fx f b r,
+  dom8 f -> is_pattern f b -> ef_decode f b = Ok (FFin r) ->
+  rf_wf r /\
+  exists o y, ef_to_ord fx f (FFin r) false = Ok o /\
+    b_neg_ord (ef_mpb f) <= o <= b_pos_ord (ef_mpb f) /\
+    ef_from_ord f o false = Ok (FFin y) /\ rf_eqb y r = true.
+Proof. exact efloat_ordinal_of_decoded_le8. Qed.
+Print Assumptions C16_efloat_ordinal_of_decoded_le8.
+
+(* every ordinal of the contiguous range is the ordinal of a decoded value *)
+Theorem C16_efloat_ordinal_range_le8 : forall fx f o,
+  dom8 f -> b_neg_ord (ef_mpb f) <= o <= b_pos_ord (ef_mpb f) ->
+  exists y, ef_from_ord f o false = Ok (FFin y) /\ rf_wf y /\
+    ef_to_ord fx f (FFin y) false = Ok o /\
+    in_decoded_set f (FFin y) = true /\
+    (o < b_pos_ord (ef_mpb f) ->
+       exists y', ef_from_ord f (o + 1) false = Ok (FFin y') /\ rf_compare y y' = Lt).
+Proof. exact efloat_ordinal_range_le8. Qed.
+Print Assumptions C16_efloat_ordinal_range_le8.
+
+Theorem C16_efloat_ordinal_zero_in_range_le8 : forall f,
+  dom8 f -> b_neg_ord (ef_mpb f) <= 0 <= b_pos_ord (ef_mpb f).
+Proof. exact efloat_ordinal_zero_in_range_le8. Qed.
+Print Assumptions C16_efloat_ordinal_zero_in_range_le8.
+
+(* strictly increasing on the whole range *)
+Theorem C16_efloat_ordinal_strictly_increasing_le8 : forall f o1 o2,
+  dom8 f -> b_neg_ord (ef_mpb f) <= o1 -> o1 < o2 -> o2 <= b_pos_ord (ef_mpb f) ->
+  exists y1 y2, ef_from_ord f o1 false = Ok (FFin y1) /\ ef_from_ord f o2 false = Ok (FFin y2) /\
+    rf_wf y1 /\ rf_wf y2 /\ (R2R y1 < R2R y2)%R.
+Proof. exact efloat_ordinal_strictly_increasing_le8. Qed.
+Print Assumptions C16_efloat_ordinal_strictly_increasing_le8.
+
+(* next_up / next_down step by one ordinal and stop at the ends *)
+Theorem C16_efloat_next_le8 : forall fx f b r,
+  fx = as_coded \/ fx = all_fixed -> dom8 f -> is_pattern f b -> ef_decode f b = Ok (FFin r) ->
+  exists o, ef_to_ord fx f (FFin r) false = Ok o /\
+    ord_next_up (ef_ops fx f) (FFin r) false = ef_from_ord f (o + 1) false /\
+    ord_next_down (ef_ops fx f) (FFin r) false = ef_from_ord f (o + -1) false /\
+    (o = b_pos_ord (ef_mpb f) -> exists e, ef_from_ord f (o + 1) false = Err e) /\
+    (o = b_neg_ord (ef_mpb f) -> exists e, ef_from_ord f (o + -1) false = Err e).
+Proof. exact efloat_next_le8. Qed.
+Print Assumptions C16_efloat_next_le8.
+
+(* min / max queries agree with the decoded value set *)
+Theorem C16_efloat_largest_smallest_le8 : forall fx f,
+  fx = as_coded \/ fx = all_fixed -> dom8 f ->
+  exists hi lo, ef_largest fx f = Ok (FFin hi) /\ ef_smallest fx f = Ok (FFin lo) /\
+    in_decoded_set f (FFin hi) = true /\ in_decoded_set f (FFin lo) = true /\
+    forall b r, is_pattern f b -> ef_decode f b = Ok (FFin r) -> rf_leb lo r = true /\ rf_leb r hi = true.
+Proof. exact efloat_largest_smallest_le8. Qed.
+Print Assumptions C16_efloat_largest_smallest_le8.
+
+Theorem C16_efloat_maxval_le8 : forall fx f s,
+  fx = as_coded \/ fx = all_fixed -> dom8 f ->
+  match ef_maxval fx f s with
+  | Ok y => exists m, y = FFin m /\ rs m = s /\ in_decoded_set f y = true /\
+      forall b r, is_pattern f b -> ef_decode f b = Ok (FFin r) -> rs r = s -> mag_leb s r m = true
+  | Err _ => forall b r, is_pattern f b -> ef_decode f b = Ok (FFin r) -> rs r <> s
+  end.
+Proof. exact efloat_maxval_le8. Qed.
+Print Assumptions C16_efloat_maxval_le8.
+
+Theorem C16_efloat_minval_le8 : forall fx f s,
+  fx = as_coded \/ fx = all_fixed -> dom8 f ->
+  match ef_minval fx f s with
+  | Ok y => exists m, y = FFin m /\ rs m = s /\ is_zero m = false /\ in_decoded_set f y = true /\
+      forall b r, is_pattern f b -> ef_decode f b = Ok (FFin r) -> rs r = s -> is_zero r = false -> mag_leb s m r = true
+  | Err _ => forall b r, is_pattern f b -> ef_decode f b = Ok (FFin r) -> rs r = s -> is_zero r = true
+  end.
+Proof. exact efloat_minval_le8. Qed.
+Print Assumptions C16_efloat_minval_le8.
+
+(* ================================================================ extended floats, bounded: candidate values (nbits <= 6) *)
+(* representable_in = membership in the decoded value set, on every encoding
+   with one redundant significand bit and exponents beyond the range, and on
+   the special values *)
+Theorem C16_efloat_representable_iff_decoded_le6_fixed : forall f x,
+  dom6 f -> in_cand_range f 1 x -> ef_repr all_fixed f x = in_decoded_set f x.
+Proof. exact efloat_representable_iff_decoded_le6_fixed. Qed.
+Print Assumptions C16_efloat_representable_iff_decoded_le6_fixed.
+
+Theorem C16_efloat_representable_iff_decoded_le6_partial : forall f x,
+  dom6 f -> in_cand_range f 1 x -> ef_has_nonzero f = true \/ fl_is_nar x = false ->
+  ef_repr as_coded f x = in_decoded_set f x.
+Proof. exact efloat_representable_iff_decoded_le6_partial. Qed.
+Print Assumptions C16_efloat_representable_iff_decoded_le6_partial.
+
+Theorem C16_efloat_encode_decode_le6_fixed : forall f x,
+  dom6 f -> in_cand_range f 1 x -> ef_repr all_fixed f x = true ->
+  exists b y, ef_encode all_fixed f x = Ok b /\ is_pattern f b /\ ef_decode f b = Ok y /\ fl_equiv y x = true.
+Proof. exact efloat_encode_decode_le6_fixed. Qed.
+Print Assumptions C16_efloat_encode_decode_le6_fixed.
+
+Theorem C16_efloat_encode_decode_le6_partial : forall f x,
+  dom6 f -> in_cand_range f 1 x -> ef_repr as_coded f x = true ->
+  ~ (e_kind f = NK_MAXVAL /\ e_nbits f - e_es f = 1 /\ fl_isinf x = true) ->
+  ~ (e_kind f = NK_NEGZERO /\ x = FNaN false) ->
+  exists b y, ef_encode as_coded f x = Ok b /\ is_pattern f b /\ ef_decode f b = Ok y /\ fl_equiv y x = true.
+Proof. exact efloat_encode_decode_le6_partial. Qed.
+Print Assumptions C16_efloat_encode_decode_le6_partial.
+
+Theorem C16_efloat_encode_nan_refuted :
+  exists f b y, dom6 f /\ ef_repr as_coded f (FNaN false) = true /\
+    ef_encode as_coded f (FNaN false) = Ok b /\ ef_decode f b = Ok y /\ fl_equiv y (FNaN false) = false.
+Proof. exact efloat_encode_nan_refuted. Qed.
+Print Assumptions C16_efloat_encode_nan_refuted.
+
+(* normalize: same number, canonical, and (finite) literally a decoded encoding *)
+Theorem C16_efloat_normalize_le6 : forall fx f x,
+  fx = as_coded \/ fx = all_fixed -> dom6 f -> in_cand_range f 1 x -> ef_repr fx f x = true ->
+  exists y, ef_normalize fx f x = Ok y /\ fl_equiv y x = true /\ ef_canonical fx f y = Ok true /\
+    (fl_is_nar y = false -> exists b, is_pattern f b /\ ef_decode f b = Ok y).
+Proof. exact efloat_normalize_le6. Qed.
+Print Assumptions C16_efloat_normalize_le6.
+
+(* ================================================================ reading the boolean relations; non-vacuity *)
+Theorem C16_in_decoded_set_spec : forall f x, in_decoded_set f x = true <->
+  exists b y, is_pattern f b /\ ef_decode f b = Ok y /\ fl_equiv y x = true.
+Proof. exact in_decoded_set_spec. Qed.
+Print Assumptions C16_in_decoded_set_spec.
+
+Theorem C16_fl_equiv_sound : forall x y, fl_wf x -> fl_wf y -> fl_equiv x y = true ->
+  match x, y with
+  | FFin a, FFin b => R2R a = R2R b /\ (rc a = 0 -> rs a = rs b)
+  | FInf s, FInf t => s = t
+  | FNaN _, FNaN _ => True
+  | _, _ => False
+  end.
+Proof. exact fl_equiv_sound. Qed.
+Print Assumptions C16_fl_equiv_sound.
+
+Theorem C16_rf_order_sound : forall a b, rf_wf a -> rf_wf b ->
+  (rf_eqb a b = true <-> R2R a = R2R b) /\
+  (rf_leb a b = true <-> (R2R a <= R2R b)%R) /\
+  (rf_compare a b = Lt <-> (R2R a < R2R b)%R).
+Proof. exact rf_order_sound. Qed.
+Print Assumptions C16_rf_order_sound.
+
+Theorem C16_hypotheses_satisfiable :
+  dom8 (EF 4 8 false NK_NEGZERO 0) /\ dom6 (EF 2 6 true NK_MAXVAL (-3)) /\
+  dom8 (EF 5 8 true NK_IEEE 3) /\ dom8 (EF 0 1 false NK_NONE 0) /\
+  is_pattern (EF 4 8 false NK_NEGZERO 0) 200 /\
+  in_cand_range (EF 2 6 true NK_MAXVAL (-3)) 1 (FFin (RF true (-3) 30)) /\
+  ef_valid (EF 8 32 true NK_IEEE 0) = true /\ ef_valid (EF 11 64 true NK_IEEE 0) = true /\
+  fix_ctor_ok (FIXF true (-8) 32) = true /\ sm_ctor_ok (SMF 3 16) = true /\ exp_ctor_ok (EXPF 8 0) = true /\
+  mpbf_repr (fix_mpbf (FIXF true (-8) 32)) (FFin (RF true (-10) 1028)) = true /\
+  mpbf_repr (sm_mpbf (SMF 3 16)) (FFin (RF true 5 0)) = true /\
+  exp_repr (EXPF 8 0) (FFin (RF false 3 4)) = true /\
+  mpf_repr (MPFF (-5) false false true) (FFin (RF true (-6) 12)) = true.
+Proof. exact domains_inhabited. Qed.
+Print Assumptions C16_hypotheses_satisfiable.
